@@ -340,14 +340,83 @@ package boltz
 // defined from the bbolt cursor it wraps; the representation invariant ties the cached key to that position.
 // ---------------------------------------------------------------------------
 
+// tagged keys: a typed set bucket stores prepend(fieldType, element); untag drops the tag byte
+//@ spec untag(s Str) Str = (str_sub s 1 (str_len s))
+//@ spec tagOf(s Str) Int = (str_at s 0)
+//@ axiom prepend_untag: (forall ((t Int) (v Str)) (! (and (= (untag (prepend t v)) v) (= (tagOf (prepend t v)) t) (= (str_len (prepend t v)) (+ (str_len v) 1))) :pattern ((prepend t v))))
+//@ axiom prepend_order: (forall ((t Int) (a Str) (b Str)) (! (= (str_lt (prepend t a) (prepend t b)) (str_lt a b)) :pattern ((str_lt (prepend t a) (prepend t b)))))
+// element-wise views of a key sequence
+//@ spec untagArr(a (Array Int Str)) (Array Int Str)
+//@ axiom untagArr_def: (forall ((a (Array Int Str)) (i Int)) (! (= (select (untagArr a) i) (untag (select a i))) :pattern ((select (untagArr a) i))))
+//@ spec revArr(a (Array Int Str), n Int) (Array Int Str)
+//@ axiom revArr_def: (forall ((a (Array Int Str)) (n Int) (i Int)) (! (= (select (revArr a n) i) (select a (- (- n 1) i))) :pattern ((select (revArr a n) i))))
+
+//@ func GetTypeAndValue
+//@   props C14 C13
+//@   pure
+//@   ensures[empty] len(bytes) == 0 ==> result0 == TypeNil && result1 == nil
+//@   ensures[tag] len(bytes) > 0 ==> result0 == tagOf(str(bytes))
+//@   ensures[value] len(bytes) > 1 ==> result1 != nil && str(result1) == untag(str(bytes))
+//@   ensures[tag-only] len(bytes) == 1 ==> result1 == nil
+//@ func typedCursorElement
+//@   props C14
+//@   pure
+//@   ensures[exhausted] key == nil ==> result == nil
+//@   ensures[element] key != nil && len(key) > 0 ==> result != nil && str(result) == untag(str(key))
+
+//@ typeinv BaseBoltCursor: self.cursor != nil && 0 <= bcLen[self.cursor] && bcLen[self.cursor] < MaxInt64 && -1 <= bcPos[self.cursor] && bcPos[self.cursor] <= bcLen[self.cursor] && sortedKeys(bcKeys[self.cursor], bcLen[self.cursor])
+
+// forward, raw keys
 //@ view curSeq[*ForwardBoltCursor] = bcKeys[self.cursor]
 //@ view curLen[*ForwardBoltCursor] = bcLen[self.cursor]
 //@ view curPos[*ForwardBoltCursor] = bcPos[self.cursor]
-//@ typeinv ForwardBoltCursor: self.cursor != nil && 0 <= bcLen[self.cursor] && bcLen[self.cursor] < MaxInt64 && 0 <= bcPos[self.cursor] && bcPos[self.cursor] <= bcLen[self.cursor] && (self.key != nil) == (bcPos[self.cursor] < bcLen[self.cursor]) && (self.key != nil ==> str(self.key) == bcKeys[self.cursor][bcPos[self.cursor]])
+//@ view curDesc[*ForwardBoltCursor] = false
+//@ typeinv ForwardBoltCursor: 0 <= bcPos[self.cursor] && (self.key != nil) == (bcPos[self.cursor] < bcLen[self.cursor]) && (self.key != nil ==> str(self.key) == bcKeys[self.cursor][bcPos[self.cursor]])
+// reverse, raw keys
+//@ view curSeq[*ReverseBoltCursor] = revArr(bcKeys[self.cursor], bcLen[self.cursor])
+//@ view curLen[*ReverseBoltCursor] = bcLen[self.cursor]
+//@ view curPos[*ReverseBoltCursor] = bcLen[self.cursor] - 1 - bcPos[self.cursor]
+//@ view curDesc[*ReverseBoltCursor] = true
+//@ typeinv ReverseBoltCursor: bcPos[self.cursor] < bcLen[self.cursor] && (self.key != nil) == (bcPos[self.cursor] >= 0) && (self.key != nil ==> str(self.key) == bcKeys[self.cursor][bcPos[self.cursor]])
+// forward, typed keys (every key carries the cursor's field type tag; elements are the untagged keys)
+//@ view curSeq[*TypedForwardBoltCursor] = untagArr(bcKeys[self.cursor])
+//@ view curLen[*TypedForwardBoltCursor] = bcLen[self.cursor]
+//@ view curPos[*TypedForwardBoltCursor] = bcPos[self.cursor]
+//@ view curDesc[*TypedForwardBoltCursor] = false
+//@ typeinv TypedForwardBoltCursor: 0 <= bcPos[self.cursor] && (self.key != nil) == (bcPos[self.cursor] < bcLen[self.cursor]) && (self.key != nil ==> str(self.key) == untag(bcKeys[self.cursor][bcPos[self.cursor]])) && forall(i, 0 <= i && i < bcLen[self.cursor] ==> sel(bcKeys[self.cursor], i) == prepend(self.fieldType, untag(sel(bcKeys[self.cursor], i))))
+// reverse, typed keys
+//@ view curSeq[*TypedReverseBoltCursor] = revArr(untagArr(bcKeys[self.cursor]), bcLen[self.cursor])
+//@ view curLen[*TypedReverseBoltCursor] = bcLen[self.cursor]
+//@ view curPos[*TypedReverseBoltCursor] = bcLen[self.cursor] - 1 - bcPos[self.cursor]
+//@ view curDesc[*TypedReverseBoltCursor] = true
+//@ typeinv TypedReverseBoltCursor: bcPos[self.cursor] < bcLen[self.cursor] && (self.key != nil) == (bcPos[self.cursor] >= 0) && (self.key != nil ==> str(self.key) == untag(bcKeys[self.cursor][bcPos[self.cursor]])) && forall(i, 0 <= i && i < bcLen[self.cursor] ==> sel(bcKeys[self.cursor], i) == prepend(self.fieldType, untag(sel(bcKeys[self.cursor], i))))
 
-//@ implcheck C14 ast.SetCursor *ForwardBoltCursor
+//@ implcheck C14 ast.SeekableSetCursor *ForwardBoltCursor *ReverseBoltCursor *TypedForwardBoltCursor *TypedReverseBoltCursor
+
 //@ func NewForwardBoltCursor
 //@   props C14
-//@   requires cursor != nil && 0 <= bcLen[cursor] && bcLen[cursor] < MaxInt64
+//@   requires cursor != nil && 0 <= bcLen[cursor] && bcLen[cursor] < MaxInt64 && sortedKeys(bcKeys[cursor], bcLen[cursor])
 //@   modifies bcPos[cursor]
-//@   ensures[first] result != nil && curPos[result] == 0
+//@   ensures[first] result != nil && istype(result, *ForwardBoltCursor) && as(result, *ForwardBoltCursor).cursor == cursor && bcPos[cursor] == 0
+//@ func NewReverseBoltCursor
+//@   props C14
+//@   requires cursor != nil && 0 <= bcLen[cursor] && bcLen[cursor] < MaxInt64 && sortedKeys(bcKeys[cursor], bcLen[cursor])
+//@   modifies bcPos[cursor]
+//@   ensures[last] result != nil && istype(result, *ReverseBoltCursor) && as(result, *ReverseBoltCursor).cursor == cursor && bcPos[cursor] == bcLen[cursor] - 1
+//@ func NewTypedForwardBoltCursor
+//@   props C14
+//@   requires cursor != nil && 0 <= bcLen[cursor] && bcLen[cursor] < MaxInt64 && sortedKeys(bcKeys[cursor], bcLen[cursor])
+//@   assume forall(i, 0 <= i && i < bcLen[cursor] ==> sel(bcKeys[cursor], i) == prepend(fieldType, untag(sel(bcKeys[cursor], i))))
+//@   modifies bcPos[cursor]
+//@   ensures[first] result != nil && istype(result, *TypedForwardBoltCursor) && as(result, *TypedForwardBoltCursor).cursor == cursor && bcPos[cursor] == 0
+//@ func NewTypedReverseBoltCursor
+//@   props C14
+//@   requires cursor != nil && 0 <= bcLen[cursor] && bcLen[cursor] < MaxInt64 && sortedKeys(bcKeys[cursor], bcLen[cursor])
+//@   assume forall(i, 0 <= i && i < bcLen[cursor] ==> sel(bcKeys[cursor], i) == prepend(fieldType, untag(sel(bcKeys[cursor], i))))
+//@   modifies bcPos[cursor]
+//@   ensures[last] result != nil && istype(result, *TypedReverseBoltCursor) && as(result, *TypedReverseBoltCursor).cursor == cursor && bcPos[cursor] == bcLen[cursor] - 1
+//@ func NewBoltCursor
+//@   props C14
+//@   requires cursor != nil && 0 <= bcLen[cursor] && bcLen[cursor] < MaxInt64 && sortedKeys(bcKeys[cursor], bcLen[cursor])
+//@   modifies bcPos[cursor]
+//@   ensures[direction] result != nil && (forward ==> istype(result, *ForwardBoltCursor)) && (!forward ==> istype(result, *ReverseBoltCursor))
